@@ -47,9 +47,12 @@ def expected(S, qualify, layouts):
 
 def table_fields(S, t, ids, eidx, oidx, q):
     out = {}
+    # the generated C code sorts / finds by the key field with the lowest id unless told otherwise: that one field carries key=true
+    keyed = [f["name"] for f in t["fields"] if f.get("key")]
     for f, fid in zip(t["fields"], ids):
         k = f["kind"]
-        d = dict(id=fid, offset=4 + 2 * fid, elem=0, index=-1, fixed=0, defi=0, required=int(bool(f.get("required"))), deprecated=int(bool(f.get("deprecated"))))
+        d = dict(id=fid, offset=4 + 2 * fid, elem=0, index=-1, fixed=0, defi=0, required=int(bool(f.get("required"))), deprecated=int(bool(f.get("deprecated"))),
+                 key=int(bool(keyed) and f["name"] == keyed[0]))
         if k == "scalar":
             d["base"] = BT[f["type"]]
             if "default" in f: d["defi"] = int(f["default"])
@@ -64,11 +67,11 @@ def table_fields(S, t, ids, eidx, oidx, q):
         elif k in ("vec_struct", "vec_table"): d["base"] = BT["vector"]; d["elem"] = BT["obj"]; d["index"] = oidx[q(f["type"])]
         elif k == "union":
             d["base"] = BT["union"]; d["index"] = eidx[q(f["type"])]
-            out[f["name"] + "_type"] = dict(id=fid - 1, offset=4 + 2 * (fid - 1), base=BT["utype"], elem=0, fixed=0, defi=0, required=0, deprecated=d["deprecated"])
+            out[f["name"] + "_type"] = dict(id=fid - 1, offset=4 + 2 * (fid - 1), base=BT["utype"], elem=0, fixed=0, defi=0, required=0, deprecated=d["deprecated"], key=0)
         elif k == "vec_union":
             d["base"] = BT["vector"]; d["elem"] = BT["union"]; d["index"] = eidx[q(f["type"])]
             # the hidden type vector carries no enum index in flatcc's output (flatc writes it): not in the property's list, not compared
-            out[f["name"] + "_type"] = dict(id=fid - 1, offset=4 + 2 * (fid - 1), base=BT["vector"], elem=BT["utype"], fixed=0, defi=0, required=0, deprecated=d["deprecated"])
+            out[f["name"] + "_type"] = dict(id=fid - 1, offset=4 + 2 * (fid - 1), base=BT["vector"], elem=BT["utype"], fixed=0, defi=0, required=0, deprecated=d["deprecated"], key=0)
         out[f["name"]] = d
     return out
 
